@@ -18,17 +18,33 @@ def bv_of(sb):
     return sb.bv()
 
 
+_UF_CACHE = {}
+
+
+def _key_of(sb):
+    return tuple(x if isinstance(x, int) else -1 - x.get_id() for x in sb.e)
+
+
 def uf_bytes(name, args, out_len):
     """Apply the uninterpreted function `name` (one per argument-length signature) to byte strings -> out_len bytes."""
     c = ctx()
     sig_name = name + "".join("_%d" % len(a) for a in args) + "__%d" % out_len
+    ck = (sig_name,) + tuple(_key_of(a) for a in args)
+    hit = _UF_CACHE.get(ck)
+    if hit is not None:
+        c.has_uf = True
+        return SymBytes(hit[1])
     terms = [bv_of(a) for a in args]
     nz = [t for t in terms if t is not None]
     sorts = [t.sort() for t in nz] + [z3.BitVecSort(8 * out_len)]
     if not nz:
         return SymBytes.from_bv(z3.BitVec(sig_name + "_const", 8 * out_len), out_len)
     f = c.uf(sig_name, *sorts)
-    return SymBytes.from_bv(f(*nz), out_len)
+    out = SymBytes.from_bv(f(*nz), out_len)
+    if len(_UF_CACHE) > 200000:
+        _UF_CACHE.clear()
+    _UF_CACHE[ck] = ([list(a.e) for a in args], list(out.e))   # argument elements are kept alive so that AST ids stay valid
+    return out
 
 
 def same_terms(a, b):
